@@ -294,11 +294,113 @@ func genC15(repo string) (string, error) {
 		return true
 	})
 	fmt.Fprintf(&sb, "\ndef findFilesCond : String := %s\n", strconv.Quote(ffc))
+	// FindFiles consults every file of every level: what it ranges over, and every jump out of /
+	// inside its loops (there is none: no break, continue, return or goto below a `for`)
+	var ffLoops, ffJumps, ffStmts []string
+	for _, st := range ff.Body.List {
+		ffStmts = append(ffStmts, c15render(vfset, st))
+	}
+	var walkLoops func(n ast.Node, inLoop bool)
+	walkLoops = func(n ast.Node, inLoop bool) {
+		ast.Inspect(n, func(m ast.Node) bool {
+			switch x := m.(type) {
+			case *ast.RangeStmt:
+				ffLoops = append(ffLoops, c15render(vfset, x.X))
+				walkLoops(x.Body, true)
+				return false
+			case *ast.ForStmt:
+				ffLoops = append(ffLoops, "for "+c15render(vfset, x.Cond))
+				walkLoops(x.Body, true)
+				return false
+			case *ast.BranchStmt:
+				if inLoop {
+					ffJumps = append(ffJumps, c15render(vfset, x))
+				}
+			case *ast.ReturnStmt:
+				if inLoop {
+					ffJumps = append(ffJumps, c15render(vfset, x))
+				}
+			}
+			return true
+		})
+	}
+	walkLoops(ff.Body, false)
+	fmt.Fprintf(&sb, "def findFilesLoops : List String := %s\n", LeanStrList(ffLoops))
+	fmt.Fprintf(&sb, "def findFilesJumps : List String := %s\n", LeanStrList(ffJumps))
+	fmt.Fprintf(&sb, "def findFilesStmts : List String := %s\n", LeanStrList(ffStmts))
+	// the level: a plain set of files (no cached key range), getFiles returns all of them
+	lfset, lf, err := ParseFile(repo, "kv/version/level.go")
+	if err != nil {
+		return "", err
+	}
+	var levelFields []string
+	for _, d := range lf.Decls {
+		gd, ok := d.(*ast.GenDecl)
+		if !ok || gd.Tok != token.TYPE {
+			continue
+		}
+		for _, sp := range gd.Specs {
+			ts := sp.(*ast.TypeSpec)
+			if st, ok := ts.Type.(*ast.StructType); ok && ts.Name.Name == "level" {
+				for _, f := range st.Fields.List {
+					for _, n := range f.Names {
+						levelFields = append(levelFields, n.Name+" "+c15render(lfset, f.Type))
+					}
+				}
+			}
+		}
+	}
+	fmt.Fprintf(&sb, "def levelFields : List String := %s\n", LeanStrList(levelFields))
+	var gf []string
+	if f := FindFunc(lf, "level", "getFiles"); f != nil {
+		for _, st := range f.Body.List {
+			gf = append(gf, c15render(lfset, st))
+		}
+	}
+	fmt.Fprintf(&sb, "def levelGetFilesStmts : List String := %s\n", LeanStrList(gf))
 	_, snf, err := ParseFile(repo, "kv/version/snapshot.go")
 	if err != nil {
 		return "", err
 	}
 	fmt.Fprintf(&sb, "def snapshotLoadCalls : List String := %s\n", LeanStrList(CallSeq(FindFunc(snf, "snapshot", "Load"))))
+	// every guarded jump of Load / FindReaders, in source order: "cond => jump"
+	snfset, snf2, err := ParseFile(repo, "kv/version/snapshot.go")
+	if err != nil {
+		return "", err
+	}
+	for _, fn := range []string{"Load", "FindReaders"} {
+		f := FindFunc(snf2, "snapshot", fn)
+		if f == nil {
+			return "", fmt.Errorf("snapshot.%s not found", fn)
+		}
+		var js []string
+		ast.Inspect(f.Body, func(n ast.Node) bool {
+			is, ok := n.(*ast.IfStmt)
+			if !ok {
+				return true
+			}
+			for _, st := range is.Body.List {
+				switch x := st.(type) {
+				case *ast.BranchStmt, *ast.ReturnStmt:
+					hd := c15render(snfset, is.Cond)
+					if is.Init != nil {
+						hd = c15render(snfset, is.Init) + "; " + hd
+					}
+					js = append(js, hd+" => "+c15render(snfset, x))
+				}
+			}
+			return true
+		})
+		var loops []string
+		ast.Inspect(f.Body, func(n ast.Node) bool {
+			if r, ok := n.(*ast.RangeStmt); ok {
+				loops = append(loops, c15render(snfset, r.X))
+			}
+			return true
+		})
+		fmt.Fprintf(&sb, "def snapshot%sJumps : List String := %s\n", fn, LeanStrList(js))
+		fmt.Fprintf(&sb, "def snapshot%sLoops : List String := %s\n", fn, LeanStrList(loops))
+	}
 
 	// ---- encoding.Uint32MinWidth as a Lean function
 	_, ef, err := ParseFile(repo, "pkg/encoding/encoding.go")
